@@ -19,4 +19,4 @@ Separate Extraction
   Freelist.begin_writer Freelist.tx_allocate Freelist.tx_free Freelist.fl_init Freelist.fl_pages Freelist.fl_size
   Conc.step Conc.init Conc.reader0 Conc.writer0 Conc.snapshots_okb Conc.finished
   ApiSig.api ApiFlow.anchoredb ApiFlow.sens_in ApiFlow.is_anchor_ty ApiFlow.none_send ApiFlow.db_shareable
-  Engine.run_tx Engine.init_db Engine.reopen_db Engine.dget.
+  Engine.run_tx Engine.run_tx_auto Engine.init_db Engine.reopen_db Engine.dget.
